@@ -180,7 +180,7 @@ def drive(cx, drv, cases, tag, src=False):
 
 
 def slim(o):
-    return {k: {f: v for f, v in o[k].items() if f not in ("cls", "msg")} for k in ("local", "fs", "again", "repl", "noimp") if k in o}
+    return {k: {f: v for f, v in o[k].items() if f not in ("cls", "msg")} for k in ("local", "fs", "again", "repl", "noimp", "reused") if k in o}
 
 
 def text_of(c):
